@@ -608,6 +608,86 @@ func runC13(c *h.Ctx) {
 			}
 		}
 	}
+	// an operand that fails after it has produced exactly one numeric item is
+	// a failed operand, also where the failure is suppressed (WithSilent, a
+	// filter, a predicate); and a doubly negated operand is still checked
+	for i, tc := range []struct{ path, doc string }{
+		{"strict $[*].a + 1", `[{"a":1},{"b":2}]`}, {"strict 1 - $[*].a", `[{"a":1},{"b":2}]`}, {"strict $[0 to 1].a * 2", `[{"a":1},{"b":2}]`}, {"$[*].a.double() + 1", `[{"a":1},{"a":"x"}]`},
+		{"strict $[*].a / $[0].a", `[{"a":1},{"b":2}]`}, {"$[*].integer() % 5", `[7,"y"]`}, {"strict -$[*].a", `[{"a":1},{"b":2}]`}, {"strict ($[*].a + 1).abs()", `[{"a":1},{"b":2}]`},
+	} {
+		if !c.Mine(i) {
+			continue
+		}
+		p := cachedPath(tc.path)
+		if p == nil {
+			c.Count("gen.unparsable", 1)
+			continue
+		}
+		for _, useNum := range []bool{false, true} {
+			doc := h.Decode(tc.doc, useNum)
+			ov := h.Call("query", p, doc, h.Opts{})
+			os := h.Call("query", p, doc, h.Opts{Silent: true})
+			oe := h.Call("exists", p, doc, h.Opts{Silent: true})
+			mode, body := "", tc.path
+			if strings.HasPrefix(body, "strict ") {
+				mode, body = "strict ", strings.TrimPrefix(body, "strict ")
+			}
+			pf := cachedPath(mode + "$ ? (" + strings.ReplaceAll(body, "$", "@") + " == 2)")
+			pq := cachedPath(mode + "(" + body + " == 2) is unknown")
+			of := h.Call("query", pf, []any{doc}, h.Opts{})
+			oq := h.Call("query", pq, doc, h.Opts{})
+			c.Eval(5)
+			c.Distinct("partial-operand", tc.path, fmt.Sprint(useNum))
+			cs := h.Case{Kind: "partial-operand", Path: tc.path, Doc: tc.doc, UseNum: useNum}
+			unary := strings.Contains(tc.path, "-$[*]")
+			bad := ""
+			switch {
+			case ov.Class != h.Soft:
+				bad = "verbose Query: " + ov.Summary()
+			case !unary && (os.Class != h.OK || len(os.Items) != 0):
+				bad = "silent Query: " + os.Summary() + " (nothing was computed before the operand failed)"
+			case oe.Class != h.Null && !(unary && oe.Class == h.OK):
+				bad = "silent Exists: " + oe.Summary()
+			case !unary && pf != nil && (of.Class != h.OK || len(of.Items) != 0):
+				bad = "as a filter condition: " + of.Summary() + " (the condition is unknown)"
+			case !unary && pq != nil && (oq.Class != h.OK || h.CanonList(oq.Items) != "[true]"):
+				bad = "(… == 2) is unknown: " + oq.Summary()
+			}
+			if bad != "" {
+				c.Violate("singleton", h.F("form", "operand-fails-after-one-item"), fmt.Sprintf("%s on %s: %s", tc.path, tc.doc, bad), cs)
+			} else {
+				c.Held("singleton")
+			}
+		}
+	}
+	for i, tc := range []struct {
+		path, doc string
+		wantErr   bool
+		want      string
+	}{
+		{"-(-$.a)", `{"a":"x"}`, true, ""}, {"-(-$.a)", `{"a":3}`, false, "[#3]"}, {"strict -(-$)", `[1]`, true, ""}, {"-(-$)", `[1,-2]`, false, "[#1 | #-2]"}, {"-(-$.a)", `{"a":[2,"x"]}`, true, ""},
+		{"$[*] ? (-(-@) == \"x\")", `["x",1]`, false, "[]"}, {"+(+$.a)", `{"a":null}`, true, ""}, {"-(+(-$.a))", `{"a":true}`, true, ""}, {"-(-(-$.a))", `{"a":2}`, false, "[#-2]"}, {"-(-$.a).type()", `{"a":1}`, true, ""},
+	} {
+		if !c.Mine(i) {
+			continue
+		}
+		p := cachedPath(tc.path)
+		if p == nil {
+			c.Count("gen.unparsable", 1)
+			continue
+		}
+		for _, useNum := range []bool{false, true} {
+			o := h.Call("query", p, h.Decode(tc.doc, useNum), h.Opts{})
+			c.Eval(1)
+			c.Distinct("dneg-nonnumeric", tc.path, tc.doc, fmt.Sprint(useNum))
+			ok := (tc.wantErr && o.Class == h.Soft) || (!tc.wantErr && o.Class == h.OK && h.CanonList(o.Items) == tc.want)
+			if !ok {
+				c.Violate("identity.dneg", h.F("form", "operand-check"), fmt.Sprintf("Query(%s) on %s = %s; want %s (error: %v): -(-x) = x for numbers, and a non-number is still rejected", tc.path, tc.doc, o.Summary(), tc.want, tc.wantErr), h.Case{Kind: "dneg", Path: tc.path, Doc: tc.doc, UseNum: useNum})
+			} else {
+				c.Held("identity.dneg")
+			}
+		}
+	}
 	seqs := []string{`[1,2,3]`, `["x",2,3]`, `[1,"x",3]`, `[1,2,"x"]`, `[1,null,3]`, `[1,[2],3]`, `[1,{},3]`, `[true]`, `[]`, `[1.5,-2]`}
 	for i, sq := range seqs {
 		if !c.Mine(i) {
